@@ -142,6 +142,21 @@ def models(mb: ModelBuilder) -> dict[str, AObj]:
     mb.relation(r, [mb.feature("m")], 1, 1)
     mb.relation(r, [mb.feature("g1"), mb.feature("g2")], 1, 1)
     ms["mandatory-beside-group"] = mb.model(r, [])
+    # constraints that are equal under Constraint.__eq__ (same text up to case, or stated twice) are
+    # still separate constraints of the model: each counts for the features it names
+    app = mb.feature("App")
+    mb.relation(app, [mb.feature("Log")], 0, 1)
+    mb.relation(app, [mb.feature("Net")], 0, 1)
+    mb.relation(app, [mb.feature("log")], 0, 1)
+    mb.relation(app, [mb.feature("net")], 0, 1)
+    mb.relation(app, [mb.feature("A")], 0, 1)
+    mb.relation(app, [mb.feature("B")], 0, 1)
+    n, o_ = mb.node, mb.op
+    ms["look-alike-constraints"] = mb.model(app, [
+        mb.constraint("c1", n(o_("IMPLIES"), n("Log"), n("Net"))),
+        mb.constraint("c2", n(o_("IMPLIES"), n("log"), n("net"))),
+        mb.constraint("c3", n(o_("IMPLIES"), n("A"), n("B"))),
+        mb.constraint("c4", n(o_("IMPLIES"), n("A"), n("B")))])
     return ms
 
 
@@ -350,6 +365,29 @@ def check(pm: ProgramModel, ctx: Ctx) -> None:
     ctx.check(okf, "C17-FILTER", "filter", where_cls, "a metric filter selects exactly the named metrics",
               bad=f"filter ['leaf_features','or_groups'] reports "
                   f"{[e['name'] for e in rep] if isinstance(rep, list) else rep}")
+    # every metric requested alone is the entry of the full report (nothing it needs is skipped by the filter)
+    full = report(fm)
+    full_by = {e["name"]: (e["result"], e["size"], e["ratio"]) for e in full} if isinstance(full, list) else {}
+    seen_names: dict[str, str] = {}
+    nalone = 0
+    for meth in sorted(fmm.methods):
+        if not any("metric_method" in d for d in fmm.methods[meth].decorators()):
+            continue
+        nalone += 1
+        r1 = report(fm, [meth])
+        if isinstance(r1, tuple):
+            ctx.violation("C17-FILTER", f"alone:{meth}", r1[2] or where_cls,
+                          f"metric {meth} requested alone raises: {r1[1]}")
+            continue
+        ok1 = len(r1) == 1 and r1[0]["name"] in full_by and r1[0]["name"] not in seen_names and \
+            (r1[0]["result"], r1[0]["size"], r1[0]["ratio"]) == full_by[r1[0]["name"]]
+        if len(r1) == 1:
+            seen_names.setdefault(r1[0]["name"], meth)
+        ctx.check(ok1, "C17-FILTER", f"alone:{meth}", where_cls,
+                  f"metric {meth} requested alone equals its entry in the full report",
+                  bad=f"metric {meth} requested alone reports {_short([(e['name'], e['result'], e['size'], e['ratio']) for e in r1])}, "
+                      f"the full report has {_short(full_by.get(r1[0]['name']) if len(r1) == 1 else None)}")
+    ctx.floor("C17-FILTER", "metrics requested alone", nalone, 36)
     ctx.floor(rule, "obligations", len(ctx.obligations), 60)
 
 
